@@ -2,7 +2,7 @@
      driver-c10 views <pinned|fixed> <in.trace> <out.trace>
          for every line of in.trace take the schedule tokens before '|', run the extracted
          model on them and print the line the implementation should have printed
-     driver-c10 count <pinned|fixed> <quick|thorough>
+     driver-c10 count <pinned|fixed> <max foreground ops incl. close> <alphabet e.g. udfr>
          enumerate the schedule tree with the model's own enabledness; print the number of
          complete schedules and of crash points (cross-check of the harness's exploration)
      driver-c10 run <pinned|fixed> <tokens>                                                  *)
@@ -93,9 +93,9 @@ let views v inp out =
 let parked (s : state) =
   match s.st_mem.m_handle with Some w -> not (is_finished w) | None -> false
 
-let count v tier =
-  let max_ops = if tier = "thorough" then 5 else 4 in
-  let alphabet = [ 'u'; 'd'; 'f'; 'r' ] in
+let count v max_ops alphabet =
+  let max_ops = int_of_string max_ops in
+  let alphabet = tokens_of alphabet in
   let leaves = ref 0 and nodes = ref 0 and crash = ref 0 in
   let rec go (m : sim) depth ops rewrote =
     incr nodes;
@@ -116,6 +116,6 @@ let count v tier =
 let main args =
   match args with
   | [ "views"; v; inp; out ] -> views (variant_of v) inp out; 0
-  | [ "count"; v; tier ] -> count (variant_of v) tier; 0
+  | [ "count"; v; max_ops; alphabet ] -> count (variant_of v) max_ops alphabet; 0
   | "run" :: v :: rest -> print_endline (trace (variant_of v) (tokens_of (String.concat "" rest))); 0
-  | _ -> prerr_endline "usage: driver-c10 views <pinned|fixed> <in> <out> | count <variant> <tier> | run <variant> <tokens>"; 2
+  | _ -> prerr_endline "usage: driver-c10 views <pinned|fixed> <in> <out> | count <variant> <max_ops> <alphabet> | run <variant> <tokens>"; 2
